@@ -19,8 +19,8 @@
 
 namespace {
 
-enum SK { PAUSE = 0, RESD, RESA, AW, LOCK, RELD, RELA, QPUSHD, QPUSHA, QPOP, DETD, DETA, STARTF, COAWAIT, RES2D, CSPD, CSPA, NSK };
-static const char *sk_names[] = {"pause", "resolve/discard", "resolve/await", "await", "lock", "release/discard", "release/await", "push/discard", "push/await", "pop", "detach/discard", "detach/await", "start()", "co_await-child", "resolve-both-merged/discard", "create_suspend_point(resolve)/discard", "create_suspend_point(resolve)/await"};
+enum SK { PAUSE = 0, RESD, RESA, AW, LOCK, RELD, RELA, QPUSHD, QPUSHA, QPOP, DETD, DETA, STARTF, COAWAIT, RES2D, CSPD, CSPA, NEST, NSK };
+static const char *sk_names[] = {"pause", "resolve/discard", "resolve/await", "await", "lock", "release/discard", "release/await", "push/discard", "push/await", "pop", "detach/discard", "detach/await", "start()", "co_await-child", "resolve-both-merged/discard", "create_suspend_point(resolve)/discard", "create_suspend_point(resolve)/await", "nested-activation(resolve)"};
 struct Step {
     int k;
     int arg;  // future index or child id
@@ -48,6 +48,7 @@ struct Ref {
     std::vector<int> D;              // resumed directly from normal code, one after another, before the queue is flushed
     int running = -1;
     std::vector<int> nest;           // coroutines that started a child with start(): they continue when the nested activation ends
+    std::vector<int> drain_nest;     // coroutines inside install_queue_and_call(): they continue when the ready queue has been drained
     int awaited_by[MAXA] = {-1, -1, -1, -1, -1, -1, -1};  // co_await child: the awaiting coroutine gets a direct transfer when the child finishes
     std::vector<int> allowed;        // who may produce the next event (empty + running>=0: the running one continues)
     bool expect_continue = false;
@@ -78,12 +79,20 @@ struct Ref {
             allowed.clear();
             return;
         }
-        if (!D.empty() && !one_at_a_time) {
+        if (!D.empty() && !one_at_a_time && drain_nest.empty()) {  // (a nested activation only sees the ready queue)
             allowed = D;
             return;
         }
         while (!Q.empty() && Q.front().empty()) Q.pop_front();
         if (Q.empty()) {
+            if (!drain_nest.empty()) {
+                // the nested activation has drained everything that was ready: its caller goes on
+                running = drain_nest.back();
+                drain_nest.pop_back();
+                expect_continue = true;
+                allowed.clear();
+                return;
+            }
             allowed.clear();  // outermost activation returns to normal code
             return;
         }
@@ -179,6 +188,19 @@ struct Ref {
                     cont();
                 } else
                     handover_direct(s);
+                break;
+            }
+            case NEST: {
+                // install_queue_and_call([&]{ resolve; }) from inside a running coroutine: a nested activation, which ends by
+                // running everything that is ready (old and new, in queue order) before the call returns
+                std::vector<int> s;
+                if (!fut_resolved[st.arg]) {
+                    fut_resolved[st.arg] = true;
+                    s = take_waiters(st.arg);
+                }
+                enqueue_batch(s);
+                drain_nest.push_back(a);
+                next_from_queue();
                 break;
             }
             case AW:
@@ -387,6 +409,7 @@ static cocls::async<void> actor(Env &e, int id) {
                 break;  // discarded
             }
             case CSPA: co_await cocls::coro_queue::create_suspend_point([&] { e.prom[st.arg](7); }); break;
+            case NEST: cocls::coro_queue::install_queue_and_call([&] { e.prom[st.arg](7); }); break;
             case RES2D: {
                 cocls::suspend_point<void> sp = e.prom[0](7);
                 sp << e.prom[1](7);
@@ -558,7 +581,7 @@ struct Gen {
             if (k == RES2D && nfut < 2) continue;
             if (k == COAWAIT && holds) continue;  // awaiting a child that needs the mutex we hold is a designed deadlock
             bool spawns = k == DETD || k == DETA || k == STARTF || k == COAWAIT;
-            int nargs = (k == RESD || k == RESA || k == AW || k == CSPD || k == CSPA) ? nfut : spawns ? N : 1;
+            int nargs = (k == RESD || k == RESA || k == AW || k == CSPD || k == CSPA || k == NEST) ? nfut : spawns ? N : 1;
             for (int arg = 0; arg < nargs; arg++) {
                 if (spawns) {
                     if (arg <= a || detached[(size_t)arg]) continue;
@@ -609,6 +632,7 @@ void seqx_run(seqx::Runner &R, const std::string &tier) {
         enumerate(R, 2, 3, 1, {PAUSE, RESD, RESA, AW, LOCK, RELD, RELA, QPUSHD, QPUSHA, QPOP, DETD, DETA, STARTF, COAWAIT}, 4);
         enumerate(R, 3, 2, 2, {PAUSE, RESD, RESA, AW, LOCK, RELD, RELA, QPUSHD, QPOP, DETD, DETA, STARTF, COAWAIT, RES2D});
         enumerate(R, 3, 3, 1, {PAUSE, AW, DETD, CSPD, CSPA});
+        enumerate(R, 3, 3, 1, {PAUSE, AW, DETD, RESD, NEST});
     } else {
         enumerate(R, 2, 3, 2, full, 4);
         enumerate(R, 2, 4, 1, {PAUSE, RESD, RESA, AW, LOCK, RELD, RELA, DETD, DETA, STARTF, COAWAIT});
